@@ -74,7 +74,16 @@ func clean(fn string) string {
 			}
 		}
 	}
-	return string(b)
+	// closure numbering (.func1.2) is an artefact of the compiler: keep the enclosing function only
+	out := string(b)
+	if i := strings.Index(out, ".func"); i >= 0 {
+		j := i + len(".func")
+		for j < len(out) && (out[j] == '.' || (out[j] >= '0' && out[j] <= '9')) {
+			j++
+		}
+		out = out[:i] + ".func" + out[j:]
+	}
+	return out
 }
 
 func (r *raceWatch) newReports() []vrt.Violation {
